@@ -77,11 +77,18 @@ package fieldmask
 //@   trusted
 //@   pure
 
+//@ func (v pathValue) IsInt32() bool
+//@   ensures result == (-2147483648 <= v.iv && v.iv <= 2147483647)
+
 //@ func (v pathValue) Int32() int32
+//@   requires -2147483648 <= v.iv && v.iv <= 2147483647
 //@   ensures result == v.iv
 
+//@ pure func tokKind(typ pathType) bool { return typ == pathTypeEOF || typ == pathTypeERR || (pathTypeLitStr <= typ && typ <= pathTypeAny) }
+
 //@ func newPathToken(typ pathType, val string, s, e int) pathToken
-//@   ensures result.typ == typ
+//@   requires tokKind(typ)
+//@   ensures result.typ == typ || (typ == pathTypeLitInt && result.typ == pathTypeERR)
 
 //@ func (p *pathIterator) char() byte
 //@   requires p != nil && 0 <= p.pos && p.pos < len(p.src)
@@ -98,7 +105,7 @@ package fieldmask
 //@   requires p != nil && wfIt(p)
 //@   ensures wfIt(p) && p.src == old(p.src) && p.pos >= old(p.pos)
 //@   modifies p.pos
-//@   loop 1 invariant old(p.pos) <= i && i <= len(p.src) && p.pos == old(p.pos) && p.src == old(p.src)
+//@   loop 1 invariant old(p.pos) <= i && i <= len(p.src) + 1 && p.pos == old(p.pos) && p.src == old(p.src)
 
 //@ func (p *pathIterator) Next() pathToken
 //@   requires p != nil && wfIt(p)
